@@ -78,7 +78,7 @@ def main():
     out = os.path.join(VERIF, "seeded", a.name)
     os.makedirs(out, exist_ok=True)
     for f in ("patch.diff", "demo.py", "notes.md"):
-        if os.path.exists(os.path.join(a.src, f)):
+        if os.path.exists(os.path.join(a.src, f)) and os.path.abspath(os.path.join(a.src, f)) != os.path.abspath(os.path.join(out, f)):
             shutil.copy(os.path.join(a.src, f), os.path.join(out, f))
     old = {}
     mp = os.path.join(out, "meta.json")
